@@ -114,13 +114,24 @@ func verifNextConnectionWorks(c *Client, store *verifStore, tag string) {
 // verifNextConnection does the same and returns what the client wrote on the
 // new connection after its CONNECT packet.
 func verifNextConnection(c *Client, store *verifStore, tag string) (afterCONNECT []byte) {
+	_, after := verifNextConnection2(c, store, tag, true)
+	return after
+}
+
+// verifNextConnection2 also returns the CONNECT packet; sessionPresent selects
+// the flag of the broker's CONNACK.
+func verifNextConnection2(c *Client, store *verifStore, tag string, sessionPresent bool) (connect, afterCONNECT []byte) {
 	if store.find(clientIDKey) < 0 {
 		store.put(clientIDKey, verifRecord([]byte{'c'}, 1))
 	}
 	saved := store.faults
 	store.faults = 0
 	conn2 := &verifInConn{}
-	conn2.in = []byte{0x20, 2, 1, 0, 0x30, 4, 0, 1, 'z', 'y'}
+	sp := byte(0)
+	if sessionPresent {
+		sp = 1
+	}
+	conn2.in = []byte{0x20, 2, sp, 0, 0x30, 4, 0, 1, 'z', 'y'}
 	conn2.rEOF = true
 	dials := 0
 	c.Config.Dialer = func(ctx context.Context) (net.Conn, error) {
@@ -137,11 +148,11 @@ func verifNextConnection(c *Client, store *verifStore, tag string) (afterCONNECT
 	packets, rest, ok := verifSplit(conn2.wlog)
 	verifAssert(ok && len(rest) == 0 && len(packets) >= 1, tag+": the new connection does not start with whole packets")
 	if !ok || len(packets) == 0 {
-		return nil
+		return nil, nil
 	}
 	verifAssert(packets[0][0] == 0x10, tag+": the new connection does not start with CONNECT")
 	for _, p := range packets[1:] {
 		afterCONNECT = append(afterCONNECT, p...)
 	}
-	return afterCONNECT
+	return packets[0], afterCONNECT
 }
